@@ -131,6 +131,9 @@ func c21(c *hx.Ctx) {
 			r.apply(&sop{kind: "recvc"})
 			r.apply(&sop{kind: "recv"})
 		case 2:
+			// (slot busy, see gen.go for why an empty slot is not used)
+			r.apply(&sop{kind: "send", body: g.body()})
+			r.apply(&sop{kind: "sendc", body: g.body()})
 			r.apply(&sop{kind: "sendc", body: g.body()})
 		case 3:
 			r.apply(&sop{kind: "send", body: g.body()})
@@ -167,7 +170,7 @@ func c21(c *hx.Ctx) {
 		// the same with nothing pending, then the message arrives
 		{{"conn", 0, ""}, {"conn", 1, ""}, {"recvc", 1, ""}, {"send", 0, "pq"}, {"recvc", 1, ""}, {"recvc", 1, ""}},
 		// Send with an already cancelled context never transmits
-		{{"conn", 0, ""}, {"conn", 1, ""}, {"recv", 1, ""}, {"sendc", 0, "zz"}, {"send", 0, "pq"}},
+		{{"conn", 0, ""}, {"sendc", 0, "zz"}, {"conn", 1, ""}, {"send", 0, "pq"}, {"sendc", 0, "zz"}, {"recv", 1, ""}},
 	}
 	runWorldScripts(c, c.N/3, 3, 4, fixedW21, func(r *worldRunner, desc map[string]any) {
 		// a finished Send must have been received by the partner (any earlier Recv result with the same body)
